@@ -690,6 +690,19 @@ struct Emitter
             case Stmt::CXXMemberCallExprClass:
             case Stmt::CallExprClass: {
                 auto* CE = cast<CallExpr>(S);
+                if (auto* OC0 = dyn_cast<CXXOperatorCallExpr>(CE)) {
+                    if (OC0->getOperator() == OO_Equal && OC0->getNumArgs() == 2)
+                        if (auto* MD0 = dyn_cast_or_null<CXXMethodDecl>(OC0->getDirectCallee()))
+                            if ((MD0->isCopyAssignmentOperator() || MD0->isMoveAssignmentOperator()) &&
+                                (MD0->isTrivial() || MD0->isImplicit() || MD0->isDefaulted()) &&
+                                !MD0->isInStdNamespace()) {
+                                O["k"] = "asg";
+                                O["op"] = "=";
+                                O["l"] = lower(OC0->getArg(0));
+                                O["r"] = lower(OC0->getArg(1));
+                                return O;
+                            }
+                }
                 O["k"] = "call";
                 lowerCallee(CE, O);
                 json::Array A;
@@ -807,6 +820,10 @@ struct Emitter
                 }
                 O["k"] = "decls";
                 O["d"] = std::move(D);
+                return O;
+            }
+            case Stmt::CXXCatchStmtClass: {
+                O["k"] = "catch";
                 return O;
             }
             case Stmt::UnaryExprOrTypeTraitExprClass:
@@ -1057,7 +1074,8 @@ struct Emitter
             const Stmt* P = PM.getParent(S);
             while (P) {
                 auto it = elemOf.find(P);
-                if (it != elemOf.end() && it->second.first == blk)
+                if (it != elemOf.end() && it->second.first == blk &&
+                    (isa<Expr>(P) || isa<DeclStmt>(P) || isa<ReturnStmt>(P)))
                     return true;
                 P = PM.getParent(P);
             }
